@@ -1182,6 +1182,10 @@ export class AnyOfConstsRuntype extends BaseRuntype {
     this.values = values;
   }
   protected describeTypeExpr(_ctx: DescribeContext): string {
+    if (this.values.length === 0) {
+      // the empty union (never | never)
+      return "never";
+    }
     const parts = this.values.map((it) => JSON.stringify(it));
     const inner = parts.join(" | ");
     return `(${inner})`;
